@@ -68,24 +68,14 @@ Theorem C06_crash_propagates : forall cfg b0 pre m evs c rest tail,
 Proof. exact crash_propagates. Qed.
 Print Assumptions C06_crash_propagates.
 
-(* never half-built: whatever events were delivered (unclosed elements, stray end tags, pending text), the
-   object the loop returns has the root alone on the stack of open elements, the root current, no text pending *)
+(* never half-built: whatever events were delivered (unclosed elements, stray end tags, pending text, even a
+   start tag carrying the reserved root name — the root is recognised by identity), the object the loop
+   returns has the root alone on the stack of open elements, the root current, no text pending *)
 Theorem C06_returned_object_fully_built : forall cfg b0 ss tail s,
-  Forall (fun st => forallb (no_root_start cfg) (attempt_events (st_out st)) = true) ss ->
   construct cfg b0 ss tail = CSoup s ->
   b_stack (so_b s) = [0%nat] /\ b_cur (so_b s) = Some 0%nat /\ b_data (so_b s) = [].
 Proof. exact returned_object_fully_built. Qed.
 Print Assumptions C06_returned_object_fully_built.
-
-(* the hypothesis above (no start event named like the root) cannot fail with html.parser: a tag name
-   begins with an ASCII letter, the reserved name does not *)
-Theorem C06_root_name_is_not_a_tag_name :
-  match root_tag_name with
-  | c :: _ => negb (((65 <=? c) && (c <=? 90)) || ((97 <=? c) && (c <=? 122))) = true
-  | [] => False
-  end.
-Proof. reflexivity. Qed.
-Print Assumptions C06_root_name_is_not_a_tag_name.
 
 (* ================================================================== the html.parser path *)
 
